@@ -56,6 +56,30 @@ pub struct CfgModel {
     pub path: Vec<PathPlugin>,
 }
 
+/// marker in the last component of a `Pos`: the configuration gets an array of another length
+/// (`POS_CUT` + digit k: the first k components; `POS_EXT`: seven components)
+pub const POS_CUT: &str = "\u{1}cut";
+pub const POS_EXT: &str = "\u{1}ext";
+
+pub fn pos_json(pos: &Pos) -> Value {
+    if let Some(k) = pos[5].strip_prefix(POS_CUT) {
+        let k: usize = k.parse().unwrap_or(5).min(5);
+        return json!(pos[..k].to_vec());
+    }
+    if pos[5] == POS_EXT {
+        let mut v: Vec<String> = pos[..5].to_vec();
+        v.push("*".into());
+        v.push("*".into());
+        return json!(v);
+    }
+    json!(pos)
+}
+
+/// true if the part of speech is written as an array that does not have exactly six components
+pub fn pos_malformed(pos: &Pos) -> bool {
+    pos[5].starts_with(POS_CUT) || pos[5] == POS_EXT
+}
+
 impl CfgModel {
     pub fn minimal(pos: &Pos) -> CfgModel {
         CfgModel {
@@ -153,10 +177,11 @@ impl CfgModel {
                 OovPlugin::Regex { pos, left, right, cost, regex, max_length, strict, user_pos } => {
                     let mut v = json!({
                         "class": format!("{}RegexOovProvider", NS),
-                        "oovPOS": pos,
                         "leftId": left, "rightId": right, "cost": cost,
                         "regex": regex,
                     });
+                    // the key has two spellings (`pos` and its alias `oovPOS`): both are used, chosen by the data
+                    v[if (*left + *cost) % 2 == 0 { "oovPOS" } else { "pos" }] = pos_json(pos);
                     if let Some(m) = max_length {
                         v["maxLength"] = json!(m);
                     }
@@ -169,7 +194,7 @@ impl CfgModel {
                 OovPlugin::Simple { pos, left, right, cost, user_pos } => {
                     let mut v = json!({
                         "class": format!("{}SimpleOovPlugin", NS),
-                        "oovPOS": pos,
+                        "oovPOS": pos_json(pos),
                         "leftId": left, "rightId": right, "cost": cost,
                     });
                     user_pos_json(&mut v, user_pos);
